@@ -78,15 +78,22 @@ def _p(draw, prob):
 
 
 class Names:
-    def __init__(self):
+    """Unique names per scope. By default names are unique ignoring case; with case_twins names that differ
+    only in letter case (Url / URL) may coexist, as protobuf allows."""
+
+    def __init__(self, case_twins=False):
         self.used = set()
+        self.case_twins = case_twins
+
+    def _k(self, n):
+        return n if self.case_twins else n.lower()
 
     def fresh(self, base):
         n, i = base, 1
-        while n.lower() in self.used:
+        while self._k(n) in self.used:
             i += 1
             n = f"{base}{i}"
-        self.used.add(n.lower())
+        self.used.add(self._k(n))
         return n
 
 
@@ -122,7 +129,7 @@ class Builder:
         return _p(self.draw, self.p[key])
 
     def ns(self, pkg):
-        return self.names.setdefault(pkg, Names())
+        return self.names.setdefault(pkg, Names(self.p.get("case_twins", False)))
 
     def comment(self):
         if not self.coin("p_comment"):
@@ -170,7 +177,8 @@ class Builder:
 
     def skeleton(self, pkg_prefix, names, depth, fileidx, base=None):
         """Phase 1: message name + nested structure, registered in the pool."""
-        name = names.fresh(base or self.d(st.sampled_from(TYPE_WORDS)))
+        words = TYPE_WORDS + (["Url", "URL", "Id", "ID", "Ip", "IP", "Item", "ITEM"] * 3 if self.p.get("case_twins") else [])
+        name = names.fresh(base or self.d(st.sampled_from(words)))
         m = {"name": name, "fields": [], "oneofs": [], "nested": [], "enums": []}
         full = f"{pkg_prefix}.{name}"
         self.pool.append({"full": "." + full, "kind": "message", "file": fileidx, "msg": m, "pkg": self.cur_pkg})
@@ -306,9 +314,19 @@ class Builder:
             pats = [f"projects/{{project}}/locations/{{location}}/{coll}/{{{var}}}"]
         elif shape == 3:
             pats = [f"projects/{{project}}/{coll}/{{{var}}}", f"folders/{{folder}}/{coll}/{{{var}}}"]
-        m["resource"] = {"type": f"{host}/{m['name']}", "patterns": pats}
+        rtype = f"{host}/{m['name']}"
+        if self.p.get("twin_resources"):
+            short = self.d(st.sampled_from(["Thing", "Thing", "Item", m["name"]]))
+            rhost = self.d(st.sampled_from([host, "a.example.com", "b.example.com", "c.example.com"]))
+            cand = f"{rhost}/{short}"
+            if cand not in [r["type"] for r in self.resources]:
+                rtype = cand
+        m["resource"] = {"type": rtype, "patterns": pats}
         if not any(f["name"] == "name" for f in m["fields"]):
             m["fields"].append({"name": "name", "number": _free_number(m["fields"]), "type": "string"})
+        if any(r["type"] == m["resource"]["type"] for r in self.resources):
+            del m["resource"]
+            return
         self.resources.append({"type": m["resource"]["type"], "patterns": pats, "msg_full": "." + full})
 
     # -- methods -----------------------------------------------------------
@@ -719,3 +737,44 @@ def option_sets(draw, transports=("grpc", "rest", "grpc+rest"), allow_ads=False,
         o["params"].append("metadata")
     o["metadata"] = md
     return o
+
+
+CODES = ["OK", "CANCELLED", "UNKNOWN", "INVALID_ARGUMENT", "DEADLINE_EXCEEDED", "NOT_FOUND", "ALREADY_EXISTS",
+         "PERMISSION_DENIED", "RESOURCE_EXHAUSTED", "FAILED_PRECONDITION", "ABORTED", "OUT_OF_RANGE", "UNIMPLEMENTED",
+         "INTERNAL", "UNAVAILABLE", "DATA_LOSS", "UNAUTHENTICATED"]
+
+
+@st.composite
+def retry_configs(draw, api, max_entries=4, fractional=True):
+    """A gRPC service config naming methods of the API (DESIGN C09 domain)."""
+    methods = [(f["package"], s["name"], m["name"]) for f, s, m in M.all_methods(api)]
+    if not methods:
+        return {"methodConfig": []}
+    entries = []
+    taken = set()
+    for _ in range(draw(st.integers(0, max_entries))):
+        k = draw(st.integers(1, min(3, len(methods))))
+        idx = draw(st.lists(st.integers(0, len(methods) - 1), min_size=k, max_size=k, unique=True))
+        names = []
+        for i in idx:
+            if i in taken:
+                continue          # a method is named by at most one entry
+            taken.add(i)
+            pkg, svc, meth = methods[i]
+            names.append({"service": f"{pkg}.{svc}", "method": meth})
+        if not names:
+            continue
+        e = {"name": names}
+        dur = st.sampled_from(["30s", "60s", "5s", "600s"] + (["0.5s", "1.250s", "2.5s", "0.100s"] if fractional else []))
+        if draw(st.integers(0, 4)) > 0:
+            e["timeout"] = draw(dur)
+        if draw(st.integers(0, 3)) > 0:
+            n = draw(st.integers(1, 4))
+            codes = draw(st.lists(st.sampled_from(CODES[1:]), min_size=n, max_size=n, unique=True))
+            e["retryPolicy"] = {"maxAttempts": draw(st.integers(2, 6)),
+                                "initialBackoff": draw(st.sampled_from(["0.1s", "1s", "0.25s", "0.5s"])),
+                                "maxBackoff": draw(st.sampled_from(["60s", "1.5s", "10s", "3s"])),
+                                "backoffMultiplier": draw(st.sampled_from([1.3, 2, 1.5, 1.0])),
+                                "retryableStatusCodes": codes}
+        entries.append(e)
+    return {"methodConfig": entries}
